@@ -9,6 +9,7 @@ fi
 export GG_GOROOT
 export PATH="$GG_GOROOT/bin:$PATH"
 export GOTOOLCHAIN=local GOFLAGS=-mod=mod GOPROXY=off GOSUMDB=off GONOSUMDB='*' GONOSUMCHECK=1 GOWORK=off
-export VERIF_REPO="${VERIF_REPO:-${VP_RUN_REPO:-/repo}}"
+# a snapshot handed over by `vp run --with-repo` wins over an inherited VERIF_REPO
+export VERIF_REPO="${VP_RUN_REPO:-${VERIF_REPO:-/repo}}"
 export VERIF_ROOT="${VERIF_ROOT:-/verif}"
 export VERIF_BUILD="$VERIF_ROOT/.build"
